@@ -198,6 +198,10 @@ func VerifC14_SystemTime() {
 func VerifC14_PINRoundTrip() {
 	v := PIN(nondetU32("pin"))
 	verifAssume(v <= 999999)
+	// case split on the number of digits (keeps each query to one polynomial identity)
+	pow := []PIN{0, 10, 100, 1000, 10000, 100000, 1000000}
+	k := nondetEnum("digits", 6)
+	verifAssume(v >= pow[k] && v < pow[k+1])
 	b, err := v.MarshalJSON()
 	verifAssert(err == nil, "PIN: MarshalJSON succeeds")
 	var w PIN
